@@ -379,6 +379,33 @@ pub fn modes_priority() -> Vec<GenCfg> {
     e.qmax = 8;
     e.final_drain = true;
     v.push(e);
+    // long add / cancel churn: many stale tickets pile up between matches
+    let mut h = GenCfg::base("cancel-churn-long");
+    h.len = (120, 320);
+    h.max_resting = 6;
+    h.ts = TsMode::NonMonotone;
+    h.op_w = [40, 9, 36, 5, 1, 1, 5, 0, 0];
+    h.final_drain = true;
+    v.push(h);
+    // bursts of cancels with (almost) no match in between: nothing drains the stale tickets
+    let mut hb = GenCfg::base("cancel-burst");
+    hb.len = (160, 400);
+    hb.max_resting = 5;
+    hb.ts = TsMode::NonMonotone;
+    hb.absent_pct = 3;
+    hb.op_w = [46, 1, 44, 2, 0, 0, 6, 0, 0];
+    hb.final_drain = true;
+    v.push(hb);
+    let mut h2 = GenCfg::base("clean-churn-long");
+    h2.len = (120, 320);
+    h2.max_resting = 6;
+    h2.exact_fills = true;
+    h2.reuse_ids = false;
+    h2.zero_pct = 0;
+    h2.ts = TsMode::NonMonotone;
+    h2.op_w = [40, 9, 38, 0, 0, 0, 5, 0, 0];
+    h2.final_drain = true;
+    v.push(h2);
     let mut g = GenCfg::base("clean-exact-layered");
     g.exact_fills = true;
     g.reuse_ids = false;
